@@ -31,8 +31,8 @@ pub fn is_thorough(tier: &str) -> bool {
 
 pub fn wall_budget(tier: &str) -> Duration {
     // the quick figure is a safety cap for a loaded machine, not the expected duration (every quick tier finishes its
-    // stated bounds in well under a minute on the idle 16-core sandbox; a cap that was hit is reported in the evidence)
-    let def = if is_thorough(tier) { 900.0 } else { 150.0 };
+    // stated bounds in about a minute or less on the idle 16-core sandbox; on a loaded machine a run takes longer rather than covering less; a cap that was hit is reported in the evidence)
+    let def = if is_thorough(tier) { 900.0 } else { 600.0 };
     let s = std::env::var("VERIF_WALL_S").ok().and_then(|s| s.parse::<f64>().ok()).unwrap_or(def);
     Duration::from_secs_f64(s)
 }
